@@ -689,8 +689,7 @@ func (ex *Exec) typeAssert(in *ssa.TypeAssert, r Term) {
 	var ok Term
 	var v Val
 	if _, isI := in.AssertedType.Underlying().(*types.Interface); isI {
-		fn := "|impl " + typeKey(in.AssertedType) + "|"
-		c.declFun(fn, []string{"Int"}, SBool)
+		fn := ex.v.implPred(c, in.AssertedType)
 		ok = and(not(eq(x.T, "inil")), app(fn, app("itag", x.T)))
 		v = x
 		v.Typ = in.AssertedType
@@ -705,6 +704,44 @@ func (ex *Exec) typeAssert(in *ssa.TypeAssert, r Term) {
 	}
 	ex.addObl("typeassert", "", r, ok, in.Pos(), "type assertion may fail", true)
 	ex.vals[in] = v
+}
+
+// implPred: the predicate "the dynamic type with this tag implements the
+// interface"; which named types of the module do is decided by the type checker.
+func (v *Verifier) implPred(c *Ctx, ifaceT types.Type) string {
+	fn := "|impl " + typeKey(ifaceT) + "|"
+	if c.funDecl[fn] {
+		return fn
+	}
+	c.declFun(fn, []string{"Int"}, SBool)
+	it := ifaceT.Underlying().(*types.Interface)
+	var paths []string
+	for pth := range v.tpkgs {
+		if strings.HasPrefix(pth, modulePath) {
+			paths = append(paths, pth)
+		}
+	}
+	sort.Strings(paths)
+	for _, pth := range paths {
+		sc := v.tpkgs[pth].Scope()
+		for _, nm := range sc.Names() {
+			tn, isT := sc.Lookup(nm).(*types.TypeName)
+			if !isT || tn.IsAlias() {
+				continue
+			}
+			if _, isIface := tn.Type().Underlying().(*types.Interface); isIface {
+				continue
+			}
+			for _, ct := range []types.Type{tn.Type(), types.NewPointer(tn.Type())} {
+				val := "false"
+				if types.Implements(ct, it) {
+					val = "true"
+				}
+				c.assume(eq(app(fn, fmt.Sprint(c.ifaceTag(ct))), val))
+			}
+		}
+	}
+	return fn
 }
 
 // ---------------------------------------------------------------- indexing
